@@ -6,6 +6,7 @@ import (
 	"fmt"
 	"io"
 	"net/http"
+	"os"
 	"strconv"
 	"strings"
 	"sync"
@@ -60,6 +61,8 @@ type saFake struct {
 	evs       []event
 	delivered []string
 	leis      []string
+	before    []int // number of bodies delivered before each recorded reconnect
+	allGETs   int   // GETs seen by the transport (including ones failed before reaching the server)
 	attempts  int
 	gets      int
 	hold      chan struct{} // the final (uncut) stream stays open until the test ends
@@ -94,6 +97,7 @@ func (f *saFake) ServeHTTP(w http.ResponseWriter, r *http.Request) {
 		rec = Rec{Kind: "ok", CutKind: f.s.CutKind, CutAt: f.s.CutAt}
 	} else {
 		f.leis = append(f.leis, lei)
+		f.before = append(f.before, len(f.delivered))
 		rec = Rec{Kind: "ok", CutKind: "none"}
 		if f.attempts < len(f.s.Reconnects) {
 			rec = f.s.Reconnects[f.attempts]
@@ -187,11 +191,15 @@ func runSAInBubble(s SAScript) (res vt.Result) {
 	tr := &memhttp.Transport{Handler: f, Chunks: s.Chunks}
 	netErrs := 0
 	tr.Fail = func(r *http.Request) error {
-		if r.Method != "GET" || r.Header.Get("Last-Event-ID") == "" {
+		if r.Method != "GET" {
 			return nil
 		}
 		f.mu.Lock()
 		defer f.mu.Unlock()
+		f.allGETs++
+		if f.allGETs == 1 {
+			return nil // the initial standalone GET
+		}
 		if f.attempts < len(f.s.Reconnects) && f.s.Reconnects[f.attempts].Kind == "neterr" {
 			f.attempts++
 			netErrs++
@@ -254,6 +262,9 @@ func runSAInBubble(s SAScript) (res vt.Result) {
 	for _, v := range viol {
 		res.Failf("%s", v)
 	}
+	if os.Getenv("C09_DEBUG") != "" {
+		fmt.Printf("DEBUG leis=%q delivered=%q\n", leis, delivered)
+	}
 	hmu.Lock()
 	got := append([]int(nil), seen...)
 	hmu.Unlock()
@@ -282,22 +293,15 @@ func runSAInBubble(s SAScript) (res vt.Result) {
 			bi++
 		}
 	}
-	advance()
-	att := 0
+	f.mu.Lock()
+	before := append([]int(nil), f.before...)
+	f.mu.Unlock()
 	for ri, l := range leis {
-		for att < len(s.Reconnects) && s.Reconnects[att].Kind == "neterr" {
-			att++
+		for bi < before[ri] {
+			advance()
 		}
-		kind := "ok"
-		if att < len(s.Reconnects) {
-			kind = s.Reconnects[att].Kind
-		}
-		att++
 		if l != last {
 			res.Failf("standalone reconnect #%d presented Last-Event-ID %q, want %q (last event received completely)", ri+1, l, last)
-		}
-		if kind == "ok" || kind == "empty" {
-			advance()
 		}
 	}
 	for bi < len(delivered) {
